@@ -50,6 +50,7 @@ class Contract:
         self.may_raise: List[str] = []
         self.assumed = False
         self.checks: Dict[str, ast.expr] = {}
+        self.shards = 1
 
 
 class SpecFunc:
@@ -94,6 +95,7 @@ def load_contracts(paths) -> "SpecEnv":
                     elif name == "may_raise": c.may_raise = ast.literal_eval(v)
                     elif name == "assumed": c.assumed = ast.literal_eval(v)
                     elif name == "note": c.note = ast.literal_eval(v)
+                    elif name == "shards": c.shards = ast.literal_eval(v)
                     elif name == "requires": c.requires = _lam(v)
                     elif name in ("ensures", "raises", "on_raise", "loops", "lemmas", "checks"):
                         if isinstance(v, ast.Dict):
@@ -395,7 +397,9 @@ class PureEval:
         parts.append(cur)
         tys = [S.parse_type(t.strip()) for t in parts]
         if len(names) != len(tys): raise Unsupported("spec: quantifier arity")
-        vs = [S.fresh(n + "!q", S.sort_of(t)) for n, t in zip(names, tys)]
+        # deterministic names: two evaluations of one specification clause yield the *same* z3 term (z3 abstracts the
+        # constants when the quantifier is built, so re-using a name in another quantifier is harmless)
+        vs = [z3.Const(f"{n}!q{len(self.bound)}", S.sort_of(t)) for n, t in zip(names, tys)]
         env = dict(self.env)
         for n, t, v in zip(names, tys, vs):
             env[n] = S.wrap(t, v)
